@@ -94,6 +94,24 @@ def run(rep, props, replay=None):
                     mon.append(f"re-estimated weight after rescaling is {w2!r}, not one")
             if mode == "user" and abs(w - uw) > 0:
                 mon.append("user-supplied weight is not returned unchanged")
+        # scale sweep: "any offset/scale" — the promised effects must not depend on the magnitude of the data
+        for scl in (1e-9, 1e-4, 1e5):
+            Xs = X * scl
+            ds = fd.dense(x, Xs)
+            sts = np.asarray(ds.standardize().values)
+            sd_s = np.std(Xs, axis=0)
+            pos = sd_s > 1e-12 * scl
+            rep.case(("scale", scl, X.tobytes()), kind=f"scale-sweep/{scl:g}")
+            if not np.all(np.isfinite(sts)):
+                mon.append(f"standardize of data scaled by {scl:g} is not finite")
+            elif np.max(np.abs(sts.var(axis=0)[pos] - 1.0), initial=0) > 1e-7:
+                mon.append(f"standardize of data scaled by {scl:g}: pointwise variance is not one where it was positive")
+            nrm_s = np.asarray(ds.normalize().norm()) if np.all(ds.norm() > 0) else np.ones(n)
+            if np.max(np.abs(nrm_s - 1.0)) > 1e-8:
+                mon.append(f"normalize of data scaled by {scl:g} does not give unit norms")
+            new_s, w_s = ds.rescale()
+            if w_s > 0 and abs(fd.dense(x, np.asarray(new_s.values)).rescale()[1] - 1.0) > 1e-7:
+                mon.append(f"rescale of data scaled by {scl:g}: re-estimated weight is not one")
         if mon:
             rep.violation("dense data: " + "; ".join(mon), {"x": C.hexf(x), "X": C.hexf(X)})
         if i % 4 == 0:
